@@ -312,6 +312,24 @@ func runC02(c *runCtx) error {
 	for i := 0; i < deep; i++ {
 		c02Case(e, gen(2+r.intn(3)), univ, st, i%5 == 0)
 	}
+	// long key lists: 65 / 66 / 129 listed keys (every stored key of the universe plus keys that
+	// are not stored), alone and OR-ed / AND-ed with other key atoms -- any threshold on the number
+	// of point reads, any order dependence of merged key lists
+	for _, n := range []int{65, 66, 129} {
+		ks := []string{}
+		for i := 0; len(ks) < n; i++ {
+			if i < len(univ) {
+				ks = append(ks, q(univ[(i*7)%len(univ)][0]))
+			} else {
+				ks = append(ks, q(fmt.Sprintf("zq%03d", i)))
+			}
+		}
+		in := "key in (" + strings.Join(ks, ", ") + ")"
+		for _, t := range []string{in, in + " | key = 'abc'", in + " | key in ('zz', 'a')", "(" + in + ") & key in ('a', 'ab', 'nokey')",
+			"(" + in + ") & value = 'x'", "(" + in + ") & key >= 'b'", in + " | key ^= 'c'"} {
+			c02Case(e, t, univ, st, true)
+		}
+	}
 	e.m.Exhaustive = c.thorough()
 	return e.flush()
 }
